@@ -810,11 +810,23 @@ class Exec:
             raise Unsupported("map loop target")
         jname = s.target.id
         tnames = set()
+        temps = set()
         for st_ in s.body:
+            if isinstance(st_, ast.Assign) and len(st_.targets) == 1 and isinstance(st_.targets[0], ast.Name):
+                temps.add(st_.targets[0].id)          # loop-local temporary (must be assigned before it is read: checked below)
+                continue
             if not (isinstance(st_, ast.Assign) and isinstance(st_.targets[0], ast.Subscript)
                     and isinstance(st_.targets[0].value, ast.Name)):
                 raise Unsupported(f"for loop line {s.lineno} is not a map loop; needs an invariant")
             tnames.add(st_.targets[0].value.id)
+        # a temporary carried from one iteration to the next would make the iterations dependent
+        seen_ = set()
+        for st_ in s.body:
+            reads = {n.id for n in ast.walk(st_.value) if isinstance(n, ast.Name)}
+            if (reads & temps) - seen_:
+                raise Unsupported(f"for loop line {s.lineno}: temporary read before it is assigned in the iteration (loop-carried)")
+            if isinstance(st_.targets[0], ast.Name):
+                seen_.add(st_.targets[0].id)
         if len(tnames) != 1:
             raise Unsupported("map loop writes several arrays")
         tname = tnames.pop()
